@@ -32,15 +32,19 @@ def is_nvv_shrink(n):
 
 
 def mentions_version_ptr_of(f, n, border_vars, aliases):
-    """Does the expression tree below n contain <border>->get_version_ptr() (or a local alias of it)?"""
+    """Does the expression below n denote the version pointer of the visited border (or a local alias of it) -
+    and of no other node (a conditional that may yield another node's version pointer does not count)?"""
+    found = False
     for x in f.walk(n):
         if is_call(x, cq='yakushima::base_node::get_version_ptr'):
             rv = root_var(f, call_recv(f, x))
             if rv in border_vars:
-                return True
+                found = True
+            else:
+                return False
         if x['k'] == 'DeclRefExpr' and x.get('id') in aliases:
-            return True
-    return False
+            found = True
+    return found
 
 
 def version_ptr_aliases(f, border_vars, extra_funcs=()):
@@ -424,6 +428,13 @@ def run(S):
     rule_rec(S)
     rule_rec0(S)
     rule_miss(S)
+    # the miss report is only meaningful for a border that is still the right one: post-lookup check (shared with C01)
+    from checks import occ
+    S.rule('R-PLC', 'get<V>: before the miss is reported (and before the slot is read) the version get_lv_of validated is '
+                    'established to have the vsplit of the descent and not to be deleted unless still a root - otherwise '
+                    'the reported (version, node) pair can belong to a border that was unlinked and never changes again')
+    for f in S.facts().by_qname('yakushima::get', lambda f: f.params and f.params[0]['type'] == 'yakushima::tree_instance *'):
+        occ.point_reader(S, f, only_plc=True)
     rule_bump(S)
     from checks import C05_cb
     C05_cb.rule_cb(S)
